@@ -23,7 +23,7 @@ from bind import _pycalls as pc
 
 PROP = "C06"
 INVARIANTS = ["SigWellFormed", "StillAccepted", "BindPreserved", "ExplicitPassed", "SurvivorsKeep",
-              "DiscardedLeavesNoTrace"]
+              "DiscardedLeavesNoTrace", "AddedGetSupplied"]
 
 
 def constants(kinds, max_changers, max_params=3, ko="NoKo", previews=0):
@@ -56,7 +56,7 @@ def make_changers(cs_mod, beh, sig0, off):
             order = list(range(off)) + [p - 1 + off for p in c["perm"]]
             out.append(cs_mod.ArgumentReorderer(order, autodef=str(30) if c["auto"] else None))
         elif op == "add":
-            out.append(cs_mod.ArgumentAdder(c["i"] + off, "n", str(c["d"]) if c["d"] else None,
+            out.append(cs_mod.ArgumentAdder(c["i"] + off, c.get("nm") or "n", str(c["d"]) if c["d"] else None,
                                             str(c["v"]) if c["v"] else None))
             n += 1
         elif op == "remove":
@@ -308,6 +308,8 @@ def features(beh, r):
     elif sig0["va"] and adds_default_only and clauses == ["BindPreserved"] and all_bad_have_extras:
         cause = "extra-positionals-shift-into-new-defaulted-parameter"
     key = {"clauses": clauses, "cause": cause}
+    if any(c["op"] == "add" and c.get("nm") not in ("", "n", None) for c in beh["chg"]):
+        key["readds_removed_name"] = True
     if beh.get("pre"):
         key["discarded_before"] = list(beh["pre"])
     if cause is None:
@@ -402,11 +404,18 @@ def main(tier):
     expanded = []
     if tier == "quick":
         # every single-changer behaviour once with a seeded kind, a seeded sample of the pairs
+        # pairs in which the second changer re-uses the name the first one removed are all replayed
+        readd = [b for b in b2 if any(c["op"] == "add" and c["nm"] not in ("", "n") for c in b["chg"])]
+        b2 = [b for b in b2 if b not in readd]
         rnd.shuffle(b2)
-        for b in b1[:] + b2[:450]:
+        for b in b1[:] + b2[:420]:
             expanded.append((b, rnd.choice(sorted(b["kinds"]))))
         rnd.shuffle(expanded)
-        expanded = expanded[:900]
+        expanded = expanded[:820]
+        for b in readd:
+            expanded.append((b, rnd.choice(sorted(b["kinds"]))))
+        if not readd:
+            verdict.machinery_failure("no changer sequence that re-adds a removed parameter name")
         # feature pass: signatures with a keyword-only tail (every request on them fails on pinned rope)
         b3.sort(key=keyf)
         rnd.shuffle(b3)
